@@ -54,7 +54,7 @@ CORRUPTIONS = ["flip-message", "flip-signature", "flip-tweak", "flip-key", "swap
                "reparent", "wrong-root", "root-is-inner-key", "high-s", "truncate-signature",
                "signature-trailing-byte", "flip-signature-structure",
                "flip-signature-structure", "certifier-key-with-extra-bytes",
-               "certifier-key-with-extra-bytes"]
+               "certifier-key-with-extra-bytes", "extra-members", "extra-members"]
 
 
 def shards(tier, seed):
@@ -218,6 +218,18 @@ def corrupt(rng, doc, info, kind):
         if "tweak" in el:
             sk = g.tweaked_key(sk, bytes.fromhex(el["tweak"]))
         el["signature"] = g.sign(sk, m, rng).hex()
+    elif kind == "extra-members":
+        # members the format does not define, on one element or on all: they say nothing
+        # about what is signed or by whom - verdicts and values stay what they are
+        pool = {"extract": ["10:42", "1:66", ":", "-65:", "0:0"], "value": [g.pub65(g.new_key(rng)).hex()],
+                "pubkey": [g.pub65(g.new_key(rng)).hex()], "type": ["x509_pem", "root"],
+                "valid": [True], "hash": ["sha512", "none"], "key": [g.pub65(g.new_key(rng)).hex()],
+                "message_hex": ["00"], "certifier": ["root"], "signed-by": ["root"],
+                "digest": [rng.randbytes(32).hex()], "raw": [True], "skip": [True]}
+        for e_ in (list(els.values()) if rng.random() < 0.5 else [el]):
+            for k_ in rng.sample(sorted(pool), rng.randint(1, 3)):
+                e_[k_] = rng.choice(pool[k_])
+        return d, root_pub, None
     elif kind == "truncate-signature":
         el["signature"] = el["signature"][:-2]
     elif kind == "signature-trailing-byte":
